@@ -921,12 +921,16 @@ func checkRedirect(r *Report, p *Prog, rule, orderRule string) {
 					// on the tracked path (GetTrackedRequest err == nil) StopTrackingRequest must have returned nil
 					cnd := fc.Cond(b)
 					var tracked string
-					for _, name := range B.Support(cnd) {
-						if strings.HasPrefix(name, "isnil(") && strings.Contains(name, "StopTrackingRequest#") {
-							stopNil = name
-						}
-						if strings.HasPrefix(name, "isnil(") && strings.Contains(name, "GetTrackedRequest#") && strings.HasSuffix(name, "#1)") {
-							tracked = name
+					// (the atoms are looked for in the conditions of all blocks: a CreateSession on a path that made no lookup
+					// - the tail duplicated into the no-RelayState branch - is not on the tracked path at all)
+					for _, b2 := range fn.Blocks {
+						for _, name := range B.Support(fc.Cond(b2)) {
+							if strings.HasPrefix(name, "isnil(") && strings.Contains(name, "StopTrackingRequest#") {
+								stopNil = name
+							}
+							if strings.HasPrefix(name, "isnil(") && strings.Contains(name, "GetTrackedRequest#") && strings.HasSuffix(name, "#1)") {
+								tracked = name
+							}
 						}
 					}
 					// the tracked path: the lookup was made (its block was reached) and returned no error
